@@ -71,6 +71,57 @@ def _param_of(body, op, depth=0):
     return None
 
 
+def _only_taken(body, call):
+    """the iterator made by this iter_mut() call flows only into `Iterator::take(it, n)` (possibly through moves)"""
+    d = call.dest
+    if d is None or d.get("p"):
+        return False
+    cur = {d["l"]}
+    for _ in range(4):
+        uses = []
+        for bi, blk in enumerate(body.blocks):
+            if blk["cleanup"]:
+                continue
+            for st in blk["stmts"]:
+                if st["k"] == "assign" and st["rv"]["k"] == "use" and st["rv"]["op"]["k"] in ("copy", "move") and \
+                        st["rv"]["op"]["place"]["l"] in cur and not st["rv"]["op"]["place"]["p"]:
+                    uses.append(("move", st["place"]["l"]))
+                elif st["k"] == "assign" and any(l_ in cur for l_ in _locals_in(st["rv"])):
+                    uses.append(("other", None))
+            t = blk["term"]
+            if t["k"] == "call" and any(a.get("k") in ("copy", "move") and a["place"]["l"] in cur for a in t["args"]):
+                fn = (t["func"].get("fn") or {}).get("full", "")
+                a0 = t["args"][0]
+                if re.search(r"Iterator>::take$|Iterator::take$", fn) and a0.get("k") in ("copy", "move") and a0["place"]["l"] in cur:
+                    uses.append(("take", None))
+                else:
+                    uses.append(("other", None))
+        if any(u[0] == "other" for u in uses):
+            return False
+        if any(u[0] == "take" for u in uses):
+            return all(u[0] in ("take", "move") for u in uses)
+        nxt = {u[1] for u in uses if u[0] == "move"}
+        if not nxt:
+            return False
+        cur = nxt
+    return False
+
+
+def _locals_in(x):
+    out = set()
+    if isinstance(x, dict):
+        pl = x.get("place")
+        if isinstance(pl, dict) and "l" in pl:
+            out.add(pl["l"])
+        for k, v in x.items():
+            if k != "place":
+                out |= _locals_in(v)
+    elif isinstance(x, list):
+        for v in x:
+            out |= _locals_in(v)
+    return out
+
+
 def _extent_known_at_callers(prog, b, op):
     """for a non-public helper that is not in anchors/known_functions.json: the slice comes straight from a parameter and
     every call site in the workspace passes a slice whose exact length the prover knows"""
@@ -174,6 +225,8 @@ def check(ctx, env):
                 pr.at = None
             if ex is None and _extent_known_at_callers(prog, b, c.args[0]):
                 continue            # a helper split off by a refactoring: every caller passes a slice of known extent
+            if ex is None and c.callee_path.endswith("::iter_mut") and _only_taken(b, c):
+                continue            # `s.iter_mut().take(n)`: at most n elements are written, n is what the take bounds
             if ex is None:
                 badw.append((b, c.line, "%s on a slice of unknown extent" % c.callee_path.split("::")[-1]))
     for b, line, why in badw:
